@@ -14,13 +14,16 @@ class P(Property):
     id = 'C16'
     gen_modules = ['gen_varint']
     properties_v = 'Properties/C16.v'
-    model_targets = ['Model/Varint.vo', 'Spec/RFC9000.vo']
+    model_targets = ['Model/Varint.vo', 'Model/VarintExtra.vo', 'Spec/RFC9000.vo']
     extract_v = 'Extract/ExtractC16.v'
     driver_ml = 'C16_driver.ml'
     harness_bin = 'c16'
-    rule = ('cases: vi.enc/vi.size for all values 0..2^16, +-2 around 2^6,2^14,2^30,2^62 and seeded random 62/64-bit values; '
+    rule = ('corpus/C16 (minimal failing inputs of every C16 mutant so far) first; cases: vi.enc/vi.size for all values 0..2^16, +-2 around 2^6,2^14,2^30,2^62 and seeded random 62/64-bit values; '
             'vi.dec for all byte strings of length 0..2, every form (1,2,4,8 bytes, minimal and non-minimal) at every truncation length '
-            'and with trailing bytes, and the same encodings as non-contiguous buffers cut at every position (vi.decc); vi.try64/vi.tryus/vi.push (TryFrom<u64>, TryFrom<usize>, PushId::try_from) and vi.wvar/vi.gvar (the write_var/get_var wrappers of proto/coding.rs and proto/varint.rs, contiguous and cut) on the same value sets; sid/sid.add for all four stream kinds x boundary indices x increments 0..usize::MAX. '
+            'and with trailing bytes, and the same encodings as non-contiguous buffers cut at every position (vi.decc); vi.try64/vi.tryus/vi.push (TryFrom<u64>, TryFrom<usize>, PushId::try_from) and vi.wvar/vi.gvar (the write_var/get_var wrappers of proto/coding.rs and proto/varint.rs, contiguous and cut) on the same value sets; sid/sid.add for all four stream kinds x boundary indices x increments 0..usize::MAX (initiator/direction read from the two low bits of `id + 0`, not from words); '
+            'sid.disp (Display for StreamId: lenient word reading + the number), sid.enc (Encode for StreamId), st.enc/st.dec (StreamType), vi.sess/vi.sessd (SessionId::try_from, Encode, Decode) on ids 0..300, form boundaries, random valid ids and the refused range '
+            '(2^62-2..2^62+2, 2^63+-1, 2^64-2, 2^64-1 and seeded random values in [2^62,2^64)); vi.from (From<u8|u16|u32>, from_u32); vi.encp (encode onto a Vec / BytesMut / fixed slice that already holds 1..40 bytes); '
+            'vi.dec/vi.decc/vi.gvar inputs of up to 64 bytes in up to 6 chunks. '
             'non-trivial = distinct (family, form of first byte / value class by bit length, result kind) triples are NOT what is counted; '
             'counted are distinct cases whose input has at least one byte or a value > 0 (i.e. past the empty-input decision)')
 
@@ -29,7 +32,7 @@ class P(Property):
         top = 2 ** 16
         for x in range(0, top + 1):
             out.append('vi.enc %d' % x)
-        for x in range(0, top + 1, 7 if tier == 'quick' else 1):
+        for x in range(0, top + 1):
             out.append('vi.size %d' % x)
         edge = set()
         for b in B + [U64]:
@@ -103,8 +106,64 @@ class P(Property):
                 out.append('sid %d' % sid)
                 for k in incs:
                     out.append('sid.add %d %d' % (sid, k))
-        for v in [2 ** 62 - 1, 2 ** 62, 2 ** 62 + 1, U64 - 1]:
+        # the refused range: boundaries and random values of 2^62 or more
+        big = [2 ** 62 - 2, 2 ** 62 - 1, 2 ** 62, 2 ** 62 + 1, 2 ** 62 + 2, 2 ** 63 - 1, 2 ** 63, 2 ** 63 + 1,
+               3 * 2 ** 62 - 1, 3 * 2 ** 62, U64 - 2, U64 - 1]
+        big += [rng.randrange(2 ** 62, U64) for _ in range(200 if tier == 'quick' else 20000)]
+        big += [2 ** 62 + rng.getrandbits(rng.choice([3, 16, 40])) for _ in range(50 if tier == 'quick' else 5000)]
+        # Display, Encode for StreamId, StreamType, SessionId: small ids first (a failing case is reported as found)
+        ids = list(range(0, 301))
+        for bnd in B:
+            ids += [bnd + d for d in range(-2, 3) if bnd + d < 2 ** 62]
+        ids += [4 * i + k for i in idx for k in range(4)]
+        ids += [rng.getrandbits(rng.choice([8, 16, 31, 33, 62, 62])) for _ in range(300 if tier == 'quick' else 30000)]
+        for v in ids + big:
             out.append('sid %d' % v)
+            out.append('sid.disp %d' % v)
+            out.append('sid.enc %d' % v)
+            out.append('st.enc %d' % v)
+            out.append('vi.sess %d' % v)
+        for v in big:
+            out.append('vi.try64 %d' % v)
+            out.append('vi.tryus %d' % v)
+            out.append('vi.push %d' % v)
+            out.append('vi.enc %d' % v)
+        # StreamType / SessionId decode: every form at every truncation, contiguous and cut, with trailing bytes
+        for x in vals:
+            for l in (1, 2, 4, 8):
+                if x < 2 ** (8 * l - 2):
+                    e = enc(x, l)
+                    tail = bytes(rng.getrandbits(8) for _ in range(rng.randint(0, 3)))
+                    for fam in ('st.dec', 'vi.sessd'):
+                        for t in range(0, l):
+                            out.append('%s %s' % (fam, e[:t].hex() or '-'))
+                        out.append('%s %s' % (fam, (e + tail).hex()))
+                        for i in range(1, l):
+                            out.append('%s %s.%s' % (fam, e[:i].hex(), (e[i:] + tail).hex()))
+                            if i + 1 < l:
+                                out.append('%s %s.%s' % (fam, e[:i].hex(), e[i:i + 1].hex()))
+        # infallible constructors
+        for x in range(256):
+            out.append('vi.from 8 %d' % x)
+        for x in list(range(0, 300)) + [16383, 16384, 16385, 65535]:
+            out.append('vi.from 16 %d' % x)
+        for x in list(range(0, 300)) + [16383, 16384, 65535, 65536, 2 ** 30 - 1, 2 ** 30, 2 ** 30 + 1, 2 ** 32 - 1] + [rng.getrandbits(32) for _ in range(100)]:
+            out.append('vi.from 32 %d' % x)
+            out.append('vi.from f32 %d' % x)
+        # non-empty targets
+        for x in [0, 1, 63, 64, 16383, 16384, 2 ** 30 - 1, 2 ** 30, 2 ** 62 - 1, 2 ** 62] + [rng.getrandbits(rng.choice([6, 14, 30, 62])) for _ in range(60 if tier == 'quick' else 6000)]:
+            for which in 'vbs':
+                pre = bytes(rng.getrandbits(8) for _ in range(rng.randint(1, 40)))
+                out.append('vi.encp %s %s %d' % (which, pre.hex(), x))
+        # long inputs (up to 64 bytes), contiguous and in up to 6 chunks
+        for _ in range(1500 if tier == 'quick' else 150000):
+            n = rng.randint(14, 64)
+            bs = bytes(rng.getrandbits(8) for _ in range(n))
+            out.append('vi.dec ' + bs.hex())
+            cuts = sorted(set(rng.randint(1, n - 1) for _ in range(rng.randint(1, 5))))
+            parts = [bs[a:b_].hex() for a, b_ in zip([0] + cuts, cuts + [n])]
+            out.append('vi.decc ' + '.'.join(parts))
+            out.append('vi.gvar %s %s' % (rng.choice('cv'), '.'.join(parts)))
         for _ in range(500 if tier == 'quick' else 50000):
             sid = rng.getrandbits(rng.choice([4, 16, 62]))
             out.append('sid %d' % sid)
@@ -115,10 +174,33 @@ class P(Property):
         # the integer carried by UnexpectedEnd and the buffer position after a failed decode are not
         # part of the property: a truncated encoding must be *reported as such*
         w = out.split()
-        if (case.startswith('vi.dec') or case.startswith('vi.gvar')) and w and w[0] == 'err':
+        if case.split()[0] in ('vi.dec', 'vi.decc', 'vi.gvar', 'st.dec', 'vi.sessd') and w and w[0] == 'err':
             return 'err'
+        if case.startswith('sid.disp') and len(w) == 4 and w[0] == 'ok':
+            # the number Display prints is compared here; its words are read leniently and compared in
+            # extra_checks (a wording the reader does not recognise, `?`, is not a failure of the property)
+            return 'ok ' + w[3]
         if w and w[0] == 'panic':
             return 'panic'
+        return out
+
+    def extra_checks(self, ctx):
+        """Display for StreamId: the initiator / direction words, where recognisable, must name the RFC 9000 kind"""
+        out = []
+        for (c, i, m, sp) in ctx['rows']:
+            if not c.startswith('sid.disp') or sp is None:
+                continue
+            wi, wm, ws = i.split(), m.split(), sp.split()
+            if len(ws) != 4 or ws[0] != 'ok':
+                continue
+            for who, w in (('impl', wi), ('model', wm)):
+                if len(w) == 4 and w[0] == 'ok' and any(a != '?' and a != b for a, b in zip(w[1:3], ws[1:3])):
+                    kind = 'property-fails-on-input' if who == 'impl' else 'model-vs-spec'
+                    out.append((kind, {'input': c, 'impl': i, 'model': m, 'spec': sp,
+                                       'what': 'Display for StreamId names the wrong initiator/direction'}))
+                    break
+            if out:
+                break
         return out
 
     def nontrivial_key(self, case, impl_out):
